@@ -1653,6 +1653,11 @@ namespace jsoncons {
             return *result;
         }
 
+        static int compare_double(double lhs, double rhs) noexcept
+        {
+            return lhs == rhs ? 0 : (lhs < rhs ? -1 : 1);
+        }
+
         int compare(const basic_json& rhs) const noexcept
         {
             if (this == &rhs)
@@ -1680,7 +1685,16 @@ namespace jsoncons {
                     }
                     break;
                 case json_storage_kind::null:
-                    return static_cast<int>(storage_kind()) - static_cast<int>(rhs.storage_kind());
+                    switch (rhs.storage_kind())
+                    {
+                        case json_storage_kind::const_json_ref:
+                            return compare(rhs.cast<const_json_ref_storage>().value());
+                        case json_storage_kind::json_ref:
+                            return compare(rhs.cast<json_ref_storage>().value());
+                        default:
+                            return static_cast<int>(storage_kind()) - static_cast<int>(rhs.storage_kind());
+                    }
+                    break;
                 case json_storage_kind::empty_object:
                     switch (rhs.storage_kind())
                     {
@@ -1727,14 +1741,17 @@ namespace jsoncons {
                                 return static_cast<uint64_t>(cast<int64_storage>().value()) < rhs.cast<uint64_storage>().value() ? -1 : 1;
                         case json_storage_kind::float64:
                         {
-                            double r = static_cast<double>(cast<int64_storage>().value()) - rhs.cast<double_storage>().value();
-                            return r == 0.0 ? 0 : (r < 0.0 ? -1 : 1);
+                            return compare_double(static_cast<double>(cast<int64_storage>().value()), rhs.cast<double_storage>().value());
                         }
                         case json_storage_kind::const_json_ref:
                             return compare(rhs.cast<const_json_ref_storage>().value());
                         case json_storage_kind::json_ref:
                             return compare(rhs.cast<json_ref_storage>().value());
                         default:
+                            if (is_string_storage(rhs.storage_kind()) && is_number_tag(rhs.tag()))
+                            {
+                                return compare_double(static_cast<double>(cast<int64_storage>().value()), rhs.as_double());
+                            }
                             return static_cast<int>(storage_kind()) - static_cast<int>(rhs.storage_kind());
                     }
                     break;
@@ -1755,14 +1772,17 @@ namespace jsoncons {
                                 return cast<uint64_storage>().value() < static_cast<uint64_t>(rhs.cast<int64_storage>().value()) ? -1 : 1;
                         case json_storage_kind::float64:
                         {
-                            auto r = static_cast<double>(cast<uint64_storage>().value()) - rhs.cast<double_storage>().value();
-                            return r == 0 ? 0 : (r < 0.0 ? -1 : 1);
+                            return compare_double(static_cast<double>(cast<uint64_storage>().value()), rhs.cast<double_storage>().value());
                         }
                         case json_storage_kind::const_json_ref:
                             return compare(rhs.cast<const_json_ref_storage>().value());
                         case json_storage_kind::json_ref:
                             return compare(rhs.cast<json_ref_storage>().value());
                         default:
+                            if (is_string_storage(rhs.storage_kind()) && is_number_tag(rhs.tag()))
+                            {
+                                return compare_double(static_cast<double>(cast<uint64_storage>().value()), rhs.as_double());
+                            }
                             return static_cast<int>(storage_kind()) - static_cast<int>(rhs.storage_kind());
                     }
                     break;
@@ -1771,18 +1791,15 @@ namespace jsoncons {
                     {
                         case json_storage_kind::int64:
                         {
-                            auto r = cast<double_storage>().value() - static_cast<double>(rhs.cast<int64_storage>().value());
-                            return r == 0 ? 0 : (r < 0.0 ? -1 : 1);
+                            return compare_double(cast<double_storage>().value(), static_cast<double>(rhs.cast<int64_storage>().value()));
                         }
                         case json_storage_kind::uint64:
                         {
-                            auto r = cast<double_storage>().value() - static_cast<double>(rhs.cast<uint64_storage>().value());
-                            return r == 0 ? 0 : (r < 0.0 ? -1 : 1);
+                            return compare_double(cast<double_storage>().value(), static_cast<double>(rhs.cast<uint64_storage>().value()));
                         }
                         case json_storage_kind::float64:
                         {
-                            auto r = cast<double_storage>().value() - rhs.cast<double_storage>().value();
-                            return r == 0 ? 0 : (r < 0.0 ? -1 : 1);
+                            return compare_double(cast<double_storage>().value(), rhs.cast<double_storage>().value());
                         }
                         case json_storage_kind::const_json_ref:
                             return compare(rhs.cast<const_json_ref_storage>().value());
@@ -1810,6 +1827,19 @@ namespace jsoncons {
                             }
                     }
                     break;
+                case json_storage_kind::half_float:
+                    switch (rhs.storage_kind())
+                    {
+                        case json_storage_kind::half_float:
+                            return compare_double(binary::decode_half(cast<half_storage>().value()), binary::decode_half(rhs.cast<half_storage>().value()));
+                        case json_storage_kind::const_json_ref:
+                            return compare(rhs.cast<const_json_ref_storage>().value());
+                        case json_storage_kind::json_ref:
+                            return compare(rhs.cast<json_ref_storage>().value());
+                        default:
+                            return static_cast<int>(storage_kind()) - static_cast<int>(rhs.storage_kind());
+                    }
+                    break;
                 case json_storage_kind::short_str:
                 case json_storage_kind::long_str:
                     if (is_number_tag(tag()))
@@ -1819,18 +1849,15 @@ namespace jsoncons {
                         {
                             case json_storage_kind::int64:
                             {
-                                auto r = val1 - static_cast<double>(rhs.cast<int64_storage>().value());
-                                return r == 0 ? 0 : (r < 0.0 ? -1 : 1);
+                                return compare_double(val1, static_cast<double>(rhs.cast<int64_storage>().value()));
                             }
                             case json_storage_kind::uint64:
                             {
-                                auto r = val1 - static_cast<double>(rhs.cast<uint64_storage>().value());
-                                return r == 0 ? 0 : (r < 0.0 ? -1 : 1);
+                                return compare_double(val1, static_cast<double>(rhs.cast<uint64_storage>().value()));
                             }
                             case json_storage_kind::float64:
                             {
-                                auto r = val1 - rhs.cast<double_storage>().value();
-                                return r == 0 ? 0 : (r < 0.0 ? -1 : 1);
+                                return compare_double(val1, rhs.cast<double_storage>().value());
                             }
                             case json_storage_kind::const_json_ref:
                                 return compare(rhs.cast<const_json_ref_storage>().value());
@@ -1839,13 +1866,11 @@ namespace jsoncons {
                             default:
                                 if (is_string_storage(rhs.storage_kind()) && is_number_tag(rhs.tag()))
                                 {
-                                    double val2 = rhs.as_double();
-                                    if (val1 == val2)
-                                    {
-                                        return 0;
-                                    }
-                                    auto r = val1 - val2; 
-                                    return r == 0 ? 0 : (r < 0.0 ? -1 : 1);
+                                    return compare_double(val1, rhs.as_double());
+                                }
+                                else if (is_string_storage(rhs.storage_kind()))
+                                {
+                                    return as_string_view().compare(rhs.as_string_view());
                                 }
                                 else
                                 {
